@@ -45,7 +45,14 @@ func (c *Ctx) classifyDecoder(f *ssa.Function, depth int) (string, string) {
 	if f == nil || f.Blocks == nil || len(f.Params) != 1 {
 		return "UNKNOWN", "not a func([]byte)"
 	}
-	b := f.Params[0]
+	return c.classifyDecoderWrt(f, f.Params[0], depth)
+}
+
+// classifyDecoderWrt: does a result of f share storage with its parameter b?
+func (c *Ctx) classifyDecoderWrt(f *ssa.Function, b *ssa.Parameter, depth int) (string, string) {
+	if f == nil || f.Blocks == nil {
+		return "UNKNOWN", "no body"
+	}
 	class, why := "COPY", "results are scalars, strings or fresh storage"
 	for _, rv := range flow.ReturnValues(f, 0) {
 		if flow.IsNilConst(rv) {
@@ -65,10 +72,39 @@ func (c *Ctx) classifyDecoder(f *ssa.Function, depth int) (string, string) {
 			// returns another decoder's result unchanged
 			if call, ok := cv.(*ssa.Extract); ok {
 				if cc, ok := call.Tuple.(*ssa.Call); ok {
-					if g := flow.StaticCallee(cc); g != nil && depth < 3 {
+					if g := flow.StaticCallee(cc); g != nil && depth < 3 && len(g.Params) == 1 {
 						cl, w := c.classifyDecoder(g, depth+1)
 						if cl != "COPY" {
 							return cl, "delegates to " + g.Name() + ": " + w
+						}
+						continue
+					} else if g != nil && depth < 3 && g.Blocks != nil {
+						// a helper with further parameters: its result aliases our input if it aliases one of
+						// its byte-slice parameters and that argument comes from our input
+						unknown := ""
+						for i, gp := range g.Params {
+							if !isByteSlice(gp.Type()) || i >= len(cc.Call.Args) {
+								continue
+							}
+							cl, w := c.classifyDecoderWrt(g, gp, depth+1)
+							switch cl {
+							case "COPY":
+							case "ALIAS":
+								for _, o := range c.storageOrigins(cc.Call.Args[i], b) {
+									switch o.Kind {
+									case "param":
+										class, why = "ALIAS", "delegates to "+g.Name()+", whose result shares the backing array of an argument taken from the input"
+									case "make", "const", "nil", "string-copy":
+									default:
+										unknown = "storage origin " + o.Kind + " " + o.Desc
+									}
+								}
+							default:
+								unknown = "delegates to " + g.Name() + ": " + w
+							}
+						}
+						if unknown != "" {
+							return "UNKNOWN", unknown
 						}
 						continue
 					}
